@@ -21,18 +21,22 @@
 (*            the blocked containers (JacobiPrecond uses extract_diag = the scalar main        *)
 (*            diagonal of the blocked matrix, component_invert, component_product): their      *)
 (*            operators are the scalar ones on the flattened matrix.                           *)
-(* each followed by the correction filter (UnitFilterBlocked: whole blocks set to zero).        *)
+(* each followed by the correction filter: a chain  unit(u1) ; mean ; unit(u2)                    *)
+(* (FilterChain<UnitFilterBlocked, MeanFilterBlocked, UnitFilterBlocked>): the unit filter sets  *)
+(* whole blocks to zero, the blocked mean filter acts on every component r separately with its   *)
+(* own primal / dual vector pair:  cor  x_r - v_r (w_r . x_r) / (v_r . w_r),                     *)
+(*                                 def  x_r - w_r (v_r . x_r) / (v_r . w_r).                     *)
 (* Life cycle, parameters, patterns, filters and histories are those of module Precond (reused *)
 (* unchanged); the results of the operators for both value sets are computed once per input    *)
-(* and kept in the constant variable `tab`.                                                    *)
+(* and kept in the constant variable `tab` (declared in module Precond; here it holds the       *)
+(* blocked table).                                                                             *)
 (* Exactness: a dyadic block has a dyadic inverse iff its determinant is +-2^k (det X det X^-1 *)
 (* = 1); the code inverts through the adjugate and 1/det, which is then exact.  Inputs for     *)
 (* which a diagonal block (ILU: a pivot block D'_JJ) leaves that class are not generated.      *)
 EXTENDS Precond
 
 CONSTANT BS        \* block size: 2, 3 (1 = cross check against the scalar definitions of Precond, not replayed)
-VARIABLE tab       \* results of the operators on every test vector (constant along a behaviour)
-bvars == <<n, P, pal, kind, par, F, life, cur, atInit, wAt, hist, tab>>
+bvars == vars      \* tab: results of the blocked operators on every test vector (constant along a behaviour)
 
 TupB(len, G(_)) ==
   IF len <= 6 THEN Tup(len, G)
@@ -123,7 +127,17 @@ BTests == TupB(NT, LAMBDA k : IF k <= n * BS THEN BUnit(k)
 BParams(kd) == IF kd = "ilu" THEN {[w |-> One, m |-> 0, p |-> p] : p \in 0..Max2(1, n - 1)} ELSE Params(kd)
 
 \* ---- B3: the operators ---------------------------------------------------------------------------------
-BFilt(v) == Tup(n, LAMBDA I : IF I \in F THEN ZeroV ELSE v[I])
+\* the filter chain F = [u1, mk, u2] of module Precond on block vectors; component r of the mean filter uses the vector pair
+\* mk (r odd) resp. 3 - mk (r even) of module Precond
+BUnitF(v, S) == IF S = {} THEN v ELSE Tup(n, LAMBDA I : IF I \in S THEN ZeroV ELSE v[I])
+CompMk(mk, r) == IF r % 2 = 1 THEN mk ELSE 3 - mk
+BComp(v, r) == Tup(n, LAMBDA I : v[I][r])
+BMeanCor(v, mk) == IF mk = 0 THEN v
+                   ELSE LET cs == Tup(BS, LAMBDA r : MeanCor(BComp(v, r), CompMk(mk, r))) IN Tup(n, LAMBDA I : Tup(BS, LAMBDA r : cs[r][I]))
+BMeanDef(v, mk) == IF mk = 0 THEN v
+                   ELSE LET cs == Tup(BS, LAMBDA r : MeanDef(BComp(v, r), CompMk(mk, r))) IN Tup(n, LAMBDA I : Tup(BS, LAMBDA r : cs[r][I]))
+BFilt(v) == BUnitF(BMeanCor(BUnitF(v, F.u1), F.mk), F.u2)          \* correction filter
+BFiltDef(v) == BUnitF(BMeanDef(BUnitF(v, F.u1), F.mk), F.u2)       \* defect filter
 DinvOf(A) == Tup(n, LAMBDA I : BInv(A[I][I]))
 
 \* pointwise Jacobi: inv_diag := omega / a (component_invert), result := inv_diag * b
@@ -158,7 +172,7 @@ RECURSIVE BPolyC(_, _, _, _, _)
 BPolyC(Ad, Al, w, z, i) ==
   IF i = 0 THEN z
   ELSE LET c == BPolyC(Ad, Al, w, z, i - 1)
-       IN BVSub(BVAdd(c, z), BJacobiOp(Ad, w, BFilt(BMatVec(Al, c))))
+       IN BVSub(BVAdd(c, z), BJacobiOp(Ad, w, BFiltDef(BMatVec(Al, c))))
 BPolyOp(Ad, Al, w, m, b) == BPolyC(Ad, Al, w, BJacobiOp(Ad, w, b), m)
 
 \* blocked ILU: block IKJ elimination of block row i with the pivots j < i of the pattern Q.
@@ -230,9 +244,9 @@ Table ==
    x21 |-> IF kind = "poly" THEN BPolyMixedAll(2, 1) ELSE <<>>,
    d1 |-> IF DevName # "none" THEN BOpAll(1, "dev") ELSE <<>>,
    d2 |-> IF DevName # "none" THEN BOpAll(2, "dev") ELSE <<>>]
-AllExact(rs) == \A k \in 1..Len(rs) : BVExact(rs[k])
+BAllExact(rs) == \A k \in 1..Len(rs) : BVExact(rs[k])
 \* the input lies in the exact dyadic domain (the deviations need not)
-TabExact(t) == AllExact(t.o1) /\ AllExact(t.o2) /\ AllExact(t.x12) /\ AllExact(t.x21)
+TabExact(t) == BAllExact(t.o1) /\ BAllExact(t.o2) /\ BAllExact(t.x12) /\ BAllExact(t.x21)
 
 \* names of the results allowed for an apply() when the cached data stem from values a and the matrix holds values c
 ON(c) == IF c = 1 THEN "o1" ELSE "o2"
@@ -247,35 +261,36 @@ BInit ==
   /\ n \in NS
   /\ P \in {pat \in SUBSET OffPos(n) : Cardinality(pat) >= MinOff /\ Cardinality(pat) <= MaxOff}
   /\ pal \in Pals /\ kind \in Kinds /\ par \in BParams(kind) /\ F \in FilterSets(n)
+  /\ (kind = "poly" /\ F.mk # 0 => par.m <= 2)          \* as in module Precond (32 bit integers of TLC)
   /\ tab = Table
   /\ TabExact(tab)
   /\ life = "created" /\ cur = 1 /\ atInit = 0 /\ hist = <<>> /\ wAt = par.w
 
 BApply == /\ Enabled("AP") /\ life = "numeric"
           /\ hist' = Append(hist, [op |-> "AP", exp |-> BAllowed(atInit, cur), dev |-> BDevs(atInit, cur)])
-          /\ UNCHANGED <<n, P, pal, kind, par, F, life, cur, atInit, wAt>>
+          /\ UNCHANGED <<n, P, pal, kind, par, F, tab, life, cur, atInit, wAt>>
 
 \* the blocked histories keep their relaxation parameter (set_omega is exercised by the scalar module): SO is a no-op step
-BNext == (InitSymbolic \/ InitNumeric \/ BApply \/ UpdateValues \/ DoneNumeric \/ DoneSymbolic \/ SetOmegaNop) /\ UNCHANGED tab
+BNext == InitSymbolic \/ InitNumeric \/ BApply \/ UpdateValues \/ DoneNumeric \/ DoneSymbolic \/ SetOmegaNop
 BSpec == BInit /\ [][BNext]_bvars
 
 \* ---- B7: sanity laws of the definitions (on every generated input; relations need the unfiltered operator) ---------
-Res(c, k) == IF c = 1 THEN tab.o1[k] ELSE tab.o2[k]
+BRes(c, k) == IF c = 1 THEN tab.o1[k] ELSE tab.o2[k]
 Cs == {1, 2}
 Ks == 1..NT
-AtStart == hist = <<>> /\ F = {}
+AtStart == hist = <<>> /\ F = NoFilter
 BInvLaw == hist = <<>> => \A c \in Cs, I \in 1..n :
    LET X == BAOf(c)[I][I]  Y == BInv(X) IN BExact(Y) => BMul(X, Y) = IdB /\ BMul(Y, X) = IdB
 BJacobiRelation == AtStart /\ kind = "jacobi" => \A c \in Cs, k \in Ks :
-   LET A == BAOf(c)  x == Res(c, k)  b == BTests[k]
+   LET A == BAOf(c)  x == BRes(c, k)  b == BTests[k]
    IN \A I \in 1..n, r \in 1..BS : Mul(A[I][I][r][r], x[I][r]) = Mul(par.w, b[I][r])
 \* (D + w L) x = w b   (the relation multiplied by w: 1/w is not dyadic for w = 3/2)
 BSorRelation == AtStart /\ kind = "sor" => \A c \in Cs, k \in Ks :
-   LET A == BAOf(c)  x == Res(c, k)  b == BTests[k]
+   LET A == BAOf(c)  x == BRes(c, k)  b == BTests[k]
    IN \A I \in 1..n : VAdd(BApp(A[I][I], x[I]), VScale(par.w, VSumTo(LAMBDA J : BApp(A[I][J], x[J]), I - 1))) = VScale(par.w, b[I])
 \* (D + w L) D^-1 (D + w U) x = w (2 - w) b,  with z = D^-1 t verified by D z = t
 BSsorRelation == AtStart /\ kind = "ssor" => \A c \in Cs, k \in Ks :
-   LET A == BAOf(c)  x == Res(c, k)  b == BTests[k]  w == par.w
+   LET A == BAOf(c)  x == BRes(c, k)  b == BTests[k]  w == par.w
        t == Tup(n, LAMBDA I : VAdd(BApp(A[I][I], x[I]), VScale(w, VSumTo(LAMBDA s : BApp(A[I][I + s], x[I + s]), n - I))))
        z == Tup(n, LAMBDA I : BApp(BInv(A[I][I]), t[I]))
    IN /\ \A I \in 1..n : BApp(A[I][I], z[I]) = t[I]
@@ -287,21 +302,31 @@ BIluLaws == AtStart /\ kind = "ilu" => \A c \in Cs :
        prod == BMatMul(BIluL(LU), BIluU(LU))
    IN /\ \A ik \in Q : prod[ik[1]][ik[2]] = A[ik[1]][ik[2]]
       /\ P \subseteq Q /\ (par.p > 0 => IluPattern(n, P, par.p - 1) \subseteq Q)
-      /\ (Q = IluPattern(n, P, n) => \A k \in Ks : BMatVec(A, Res(c, k)) = BTests[k])
+      /\ (Q = IluPattern(n, P, n) => \A k \in Ks : BMatVec(A, BRes(c, k)) = BTests[k])
 BLinearity == hist = <<>> => \A c \in Cs :
-   Res(c, NT) = BVSub(BVScale(D(2), Res(c, NT - 1)), Res(c, 1))
+   BRes(c, NT) = BVSub(BVScale(D(2), BRes(c, NT - 1)), BRes(c, 1))
 \* BS = 1: the blocked definitions coincide with the scalar definitions of module Precond
 Flat1(v) == Tup(n, LAMBDA I : v[I][1])
 ScalarConsistency == hist = <<>> /\ BS = 1 =>
-   /\ \A c \in Cs, k \in Ks : Flat1(BTests[k]) = Tests(n)[k] /\ (kind # "diagonal" => Flat1(Res(c, k)) = Op(c, Tests(n)[k]))
+   /\ \A c \in Cs, k \in Ks : Flat1(BTests[k]) = Tests(n)[k] /\ (kind # "diagonal" => Flat1(BRes(c, k)) = Op(c, Tests(n)[k]))
    /\ kind = "poly" => \A k \in Ks : Flat1(tab.x12[k]) = PolyMixed(1, 2, Tests(n)[k]) /\ Flat1(tab.x21[k]) = PolyMixed(2, 1, Tests(n)[k])
+\* the correction filter: blocks of the last unit filter vanish; after a mean filter (not followed by a unit filter) every
+\* component has dual mean zero
+BFilterLaw == hist = <<>> => \A c \in Cs, k \in Ks :
+   LET x == BRes(c, k) IN
+     /\ \A I \in F.u2 : x[I] = ZeroV
+     /\ (F.mk = 0 => \A I \in F.u1 : x[I] = ZeroV)
+     /\ (F.mk # 0 /\ F.u2 = {} => \A r \in 1..BS : Dot(BComp(x, r), MeanDual(n, CompMk(F.mk, r))) = Zero)
 BLifeOK == LifeOK
 
 \* ---- B8: generator ----------------------------------------------------------------------------------------------------
 IluDiffers(c) == LET Q == IluPattern(n, P, par.p) IN BIluFactor(BAOf(c), Q, "right") # BIluFactor(BAOf(c), Q, "left")
 PivotChanged(c) == LET LU == BIluFactor(BAOf(c), IluPattern(n, P, par.p), "right") IN \E I \in 1..n : LU[I][I] # BAOf(c)[I][I]
 BEmit == Final =>
-  PrintT(ToJson([bs |-> BS, n |-> n, kind |-> kind, w |-> par.w, m |-> par.m, p |-> par.p, F |-> SetSeq(F),
+  PrintT(ToJson([bs |-> BS, n |-> n, kind |-> kind, w |-> par.w, m |-> par.m, p |-> par.p,
+                 F |-> SetSeq(F.u1), mk |-> F.mk, F2 |-> SetSeq(F.u2),
+                 mp |-> IF F.mk = 0 THEN <<>> ELSE Tup(n, LAMBDA I : Tup(BS, LAMBDA r : MeanPrim(n, CompMk(F.mk, r))[I])),
+                 md |-> IF F.mk = 0 THEN <<>> ELSE Tup(n, LAMBDA I : Tup(BS, LAMBDA r : MeanDual(n, CompMk(F.mk, r))[I])),
                  pat |-> Tup(n, LAMBDA i : Tup(n, LAMBDA j : IF i = j \/ <<i, j>> \in P THEN 1 ELSE 0)),
                  A1 |-> BAOf(1), A2 |-> BAOf(2), dg1 |-> BDOf(1), dg2 |-> BDOf(2), tests |-> BTests,
                  ilupat |-> IF kind = "ilu" THEN LET Q == IluPattern(n, P, par.p)
